@@ -34,7 +34,9 @@ type hardSeq struct {
 	afterSeed   bool // prev is a restart seed, not yet followed by an id
 	lastT       int64
 	lastS       int64
-	stalled     bool // some call found the clock not past the last issued ms
+	flapNs      int64 // > 0: the first reading within a call is this much later than further readings of that call
+	inCall      int   // clock readings taken since the current Generate call began
+	stalled     bool  // some call found the clock not past the last issued ms
 	failed      bool
 	segFirst    int64
 	segLast     int64
@@ -76,6 +78,7 @@ func (h *hardSeq) do(n int, dNs int64) {
 		reading := h.clock
 		nowRel := floorDiv(reading, msNs) - h.l.epoch
 		before := h.reads
+		h.inCall = 0
 		id := h.n.Generate()
 		h.calls++
 		k.Evals(1)
@@ -268,7 +271,7 @@ func hardSeqCase(k *engine.Case) {
 	if r.Intn(3) == 0 {
 		h.budget = 9000 + r.Intn(9000)
 	}
-	margin := int64(h.budget) + 16
+	margin := int64(h.budget) + 16 + 1100 // + the largest step-back between two readings (1 s)
 	h.hiRel = l.maxTime()
 	if unixMsMax-l.epoch < h.hiRel {
 		h.hiRel = unixMsMax - l.epoch
@@ -278,7 +281,21 @@ func hardSeqCase(k *engine.Case) {
 	h.loNs = unixMsMin * msNs
 	loRel := unixMsMin - l.epoch // <= 0
 
-	restoreNow := snowflake.VerifSetNow(func() time.Time { h.reads++; return time.Unix(0, h.clock) })
+	// the clock is read by the generator, not handed to it: in one case of six a reading taken
+	// first within a Generate call is later than any further reading of the same call (a clock
+	// that steps back between two looks). Ids are judged against the lower reading.
+	if r.Intn(6) == 0 {
+		h.flapNs = []int64{msNs, 2 * msNs, 5*msNs + 17, 1000 * msNs, msNs / 2}[r.Intn(5)]
+		k.Count("hard_cases_clock_steps_back_between_readings", 1)
+	}
+	restoreNow := snowflake.VerifSetNow(func() time.Time {
+		h.reads++
+		h.inCall++
+		if h.flapNs > 0 && h.inCall == 1 {
+			return time.Unix(0, h.clock+h.flapNs)
+		}
+		return time.Unix(0, h.clock)
+	})
 	defer restoreNow()
 
 	// where the clock starts
